@@ -68,3 +68,9 @@ Definition family_codes_ok : bool :=
   && N.eqb (exit_status (Raised (mro_of 8 "NotImplementedError"))) 3
   && N.eqb (exit_status (Raised (mro_of 8 "ValidationFailure"))) 1
   && report_written (Raised (mro_of 8 "ValidationFailure")).
+
+(* ---- C18: the command line and the API agree on the options ---- *)
+Definition structural_dests : list string := ["data"; "output"; "do_rules"; "server"].
+Definition every_option_reaches_validate : bool :=
+  forallb (fun d => smem d structural_dests || existsb (fun p => String.eqb (fst p) d) cli_passed) cli_dests.
+Definition every_keyword_understood : bool := forallb (fun p => smem (snd p) validate_keywords) cli_passed.
